@@ -381,3 +381,35 @@ Proof.
               {| sk_groups := []; sk_col := None; sk_all := init_all (p_metrics p) |} E) as [E1 E2].
   rewrite E2, E1. reflexivity.
 Qed.
+
+(** * After the repair of the ungrouped pre-hash (d49da47): no known class is left here.
+    [agg_columnar_default_prehash_zero] is regenerated as [false], so the sink that is run against
+    the implementation has one possible output for every plan. *)
+Lemma prehash_flag : Gen.Params.agg_columnar_default_prehash_zero = false.
+Proof. reflexivity. Qed.
+
+Theorem flow_alts_single : forall p ng nf batches,
+  flow_alts p ng nf batches = [flow_rows p ng nf batches].
+Proof.
+  intros. apply flow_alts_outside_known. unfold UngroupedMixedBatchPaths. rewrite prehash_flag. discriminate.
+Qed.
+
+Lemma choices_singletons : forall {A B} (f : A -> B) (l : list A),
+  choices (map (fun x => [f x]) l) = [map f l].
+Proof.
+  intros A B f l. induction l as [|x l IH]; [reflexivity|].
+  cbn [map choices]. rewrite IH. reflexivity.
+Qed.
+
+(** the function extracted and run against the implementation has exactly one outcome, and it is
+    the pipeline of [pipeline_equals_fold] followed by the empty-group filter *)
+Theorem merged_groups_alts_single : forall p ng nf flows,
+  merged_groups_alts p ng nf flows =
+  [filter (fun e => keep_group p (fst e)) (pipeline p (map (rows_of_flow ng nf) flows))].
+Proof.
+  intros p ng nf flows. unfold merged_groups_alts.
+  replace (map (flow_alts p ng nf) flows) with (map (fun b => [flow_rows p ng nf b]) flows)
+    by (apply map_ext; intros; symmetry; apply flow_alts_single).
+  rewrite choices_singletons. cbn [map]. unfold pipeline, flow_rows, flow_out, rows_of_flow.
+  now rewrite map_map.
+Qed.
